@@ -188,6 +188,23 @@ def semantic_cases(ctx, n):
     return out
 
 
+def nesting_cases(ctx):
+    """a chain `x op y op z` next to the OTHER nesting of the same chain in a second theory atom of the same program (an observer `u` that is
+    hidden): the chain still denotes its fully parenthesised form, whatever else the program mentions"""
+    rng = ctx.rng('nesting')
+    a, b, c = ('atom', 'a'), ('atom', 'b'), ('atom', 'c')
+    out = []
+    for op in gen.BODY_BIN:
+        fl, fr = (op, (op, a, b), c), (op, a, (op, b, c))
+        for f, g in ((fl, fr), (fr, fl)):
+            for upart, wpart in (('initial', 'always'), ('always', 'dynamic'), ('always', 'always')):
+                ctxt = '#program always.\n{ a; b; c }.\n'
+                raw = ctxt + '#program %s.\nu :- not not &tel { %s }.\n#program %s.\nw :- not not &tel { %s }.\n' % (upart, lang.fml_txt(g), wpart, mintxt(f))
+                par = ctxt + '#program %s.\nw :- not not &tel { %s }.\n' % (wpart, lang.fml_txt(f))
+                out.append({'raw': raw, 'paren': par, 'formula_raw': mintxt(f) + '   [next to ' + lang.fml_txt(g) + ']', 'formula_paren': lang.fml_txt(f), 'head': False})
+    return out
+
+
 ARITH = [('1-2+3', 2), ('0-1+2', 1), ('2-3+2', 1), ('3-1-1', 1), ('1+2-3', 0), ('2-(1-1)', 2), ('1-(2-3)', 2), ('1+1', 2), ('3-2', 1), ('0+0', 0), ('2-2+1', 1),
          ('1-3+3', 1), ('(1-2)+2', 1), ('0-2+4', 2)]
 
@@ -217,12 +234,12 @@ def run(ctx):
         counts[which] = n
         for b in bad[:5]:
             cex.append({'key': 'c07:%s:%s' % (which, b.get('term', '')), 'what': b['what'], 'input': b})
-    sem = semantic_cases(ctx, 250 if ctx.quick else 1000) + arith_cases(ctx)
+    sem = semantic_cases(ctx, 250 if ctx.quick else 1000) + arith_cases(ctx) + nesting_cases(ctx)
     inputs = []
     for c in sem:
         inputs += [[c['raw']], [c['paren']]]
     H = 3
-    res = meta.answer_sets(ctx, inputs, H)
+    res = meta.answer_sets(ctx, inputs, H, hide=('u',))
     nontriv = set()
     for i, c in enumerate(sem):
         a, b = res[2 * i], res[2 * i + 1]
@@ -234,7 +251,7 @@ def run(ctx):
     total = sum(counts.values())
     cov = {'evaluations': total + len(inputs), 'distinct_nontrivial': total + len(nontriv), 'exhaustive': not ctx.quick,
            'rule': 'token sequences unary? a binary unary? b [binary unary? c] and stacked prefix operators over the operators of each table: TheoryParser %d, gringo tel %d, gringo del %d '
-                   '(pairs exhaustive; triples exhaustive in thorough, all binary-binary combinations + sample in quick), every sequence distinct; plus %d raw/parenthesised program pairs through the pipeline (among them arithmetic n-fold prefixes, also with negative intermediate values, against their value) '
+                   '(pairs exhaustive; triples exhaustive in thorough, all binary-binary combinations + sample in quick), every sequence distinct; plus %d raw/parenthesised program pairs through the pipeline (among them arithmetic n-fold prefixes, also with negative intermediate values, against their value; chains of one binary operator next to the other nesting of the same chain in a second atom) '
                    '(non-trivial = formula whose minimal form differs from the parenthesised one and has answer sets)' % (counts['py'], counts['tel'], counts['del'], len(sem)),
            'samples': [{'raw': sem[i]['formula_raw'], 'parenthesised': sem[i]['formula_paren']} for i in (0, 1, 2)]}
     return {'counterexamples': cex[:10], 'coverage': cov}
@@ -243,7 +260,7 @@ def run(ctx):
 def replay(ctx, payload):
     inp = payload['input']
     if 'raw' in inp:
-        res = meta.answer_sets(ctx, [[inp['raw']], [inp['paren']]], inp.get('H', 3))
+        res = meta.answer_sets(ctx, [[inp['raw']], [inp['paren']]], inp.get('H', 3), hide=('u',))
         return not meta.same(res[0], res[1])
     if 'line' in inp:
         which = inp['which']
